@@ -79,7 +79,7 @@ class ModelRunner:
         if not lines:
             return []
         data = ("\n".join(lines) + "\n").encode()
-        r = subprocess.run([leanp.DRIVER, self.model], input=data, capture_output=True, timeout=7200)
+        r = subprocess.run([leanp.driver_path(self.model)], input=data, capture_output=True, timeout=7200)
         got = r.stdout.decode("latin-1").split("\n")
         if got and got[-1] == "":
             got.pop()
